@@ -56,20 +56,41 @@ def bcast_last(t, nd):
     return lambda *i: t.at(*T._bidx(t, nd, i))
 
 
-def oblige_forall(E, name, sorts, fn, hint="d", using=None):
+def _restricted(st, using):
+    """context: only the quantified hypotheses whose name starts with one of `using`
+    are visible (also to the congruence closure of Sum nodes) - hiding hypotheses is sound"""
+    class Ctx:
+        def __enter__(self):
+            self.saved = st.qfacts
+            if using is not None:
+                self.vis = [q for q in st.qfacts if any(q.name.startswith(u) for u in using)]
+                st.qfacts = list(self.vis)
+            return self
+
+        def __exit__(self, *a):
+            if using is not None:
+                vis_ids = {id(q) for q in self.vis}
+                new = [q for q in st.qfacts if id(q) not in vis_ids]  # facts added meanwhile (sum congruences)
+                st.qfacts = self.saved + new
+            return False
+    return Ctx()
+
+
+def oblige_forall(E, name, sorts, fn, hint="d", using=None, assume=True):
     """Skolemised forall-goal; the statement is assumed afterwards ONLY when it was
     discharged (a failed clause must not mask later ones).  Returns True iff discharged."""
     st = E.st
     n0 = len(st.results)
     sks = [st.fresh(f"{hint}{k}", s) for k, s in enumerate(sorts)]
-    st.oblige(name, C.as_bool(fn(*sks)), assume_after=False, extra_pool=[t for t in sks if t.sort() == INT], using=using)
+    with _restricted(st, using):
+        st.oblige(name, C.as_bool(fn(*sks)), assume_after=False, extra_pool=[t for t in sks if t.sort() == INT])
     ok = all(r.verdict == "discharged" for r in st.results[n0:])
-    if ok:
+    if ok and assume:
         st.assume_forall(sorts, fn, name)
     return ok
 
 
-def oblige_within(E, name, x, lo, hi, using=None):
+def oblige_within(E, name, x, lo, hi, using=None, assume=True):
     """forall idx in range(x.shape): lo[idx] <= x[idx] <= hi[idx]  (lo/hi broadcast against x's trailing axes)"""
     x = T.as_tensor(x)
     lo, hi = T.as_tensor(lo), T.as_tensor(hi)
@@ -84,10 +105,10 @@ def oblige_within(E, name, x, lo, hi, using=None):
     if n == 0:
         E.oblige(name, Sym(fn()), assume_after=False)
         return E.st.results[-1].verdict == "discharged"
-    return oblige_forall(E, name, [INT] * n, fn, using=using)
+    return oblige_forall(E, name, [INT] * n, fn, using=using, assume=assume)
 
 
-def oblige_eq(E, name, got, want, using=None):
+def oblige_eq(E, name, got, want, using=None, assume=True):
     """tensor equality: same shape (syntactic, as NumPy decides it) and equal elements"""
     got, want = T.as_tensor(got), T.as_tensor(want)
     r = T.tensor_eq_goal(got, want)
@@ -98,7 +119,7 @@ def oblige_eq(E, name, got, want, using=None):
     if not sorts:
         E.oblige(name, Sym(fn()), assume_after=False)
         return E.st.results[-1].verdict == "discharged"
-    return oblige_forall(E, name, sorts, fn, hint="i", using=using)
+    return oblige_forall(E, name, sorts, fn, hint="i", using=using, assume=assume)
 
 
 def assume_within(E, name, x, lo, hi):
@@ -281,7 +302,7 @@ def mk_h_tanh(batch):
 # =========================================================================
 # finite-sum bound lemma (lemmas/SumLemmas.lean: PyvcSum.sum_mem_Icc / sum_ge / sum_le / mean_mem_Icc)
 # =========================================================================
-def sum_bounds_lemma(E, name, t, lo=None, hi=None):
+def sum_bounds_lemma(E, name, t, lo=None, hi=None, using=None):
     """t: tensor (K, *rest); lo / hi: tensors broadcastable to `rest` (or None).
     OBLIGES the premise  forall j < K, p: lo[p] <= t[j, p] <= hi[p]  and only when it
     was discharged ASSUMES the conclusion for S[p] = sum_j t[j, p]:
@@ -306,7 +327,7 @@ def sum_bounds_lemma(E, name, t, lo=None, hi=None):
             cs.append(v <= C.as_real(hi_f(*i[1:])))
         return z3.Implies(g(*i), z3.And(*cs))
 
-    ok = oblige_forall(E, f"{name}.lemma_premise[sum_bounds]", [INT] * (n + 1), premise, hint="lj")
+    ok = oblige_forall(E, f"{name}.lemma_premise[sum_bounds]", [INT] * (n + 1), premise, hint="lj", using=using, assume=False)
     if not ok:
         return S
     Kz = z3.ToReal(T.dim_z(K))
@@ -370,23 +391,26 @@ def post_cem_update(E, prefix, samples, fitness, mean, var, n_elite, alpha, lb, 
         return False
     elites, idx, perm = elites_of(E, samples, fitness, n_elite)
     # elites are samples, hence inside the bounds: mean of bounded terms is bounded (lemma)
-    S = sum_bounds_lemma(E, f"{prefix}.elite_mean", elites, lb, ub)
+    S = sum_bounds_lemma(E, f"{prefix}.elite_mean", elites, lb, ub, using=["pre.samples_in_bounds", "sort.perm"])
     xbar = S / n_elite
-    oblige_eq(E, f"{prefix}.mean_value", mean2, alpha * mean + (1 - alpha) * xbar)
-    ok = oblige_within(E, f"{prefix}.mean_bounds", mean2, lb, ub)
+    okv = oblige_eq(E, f"{prefix}.mean_value", mean2, alpha * mean + (1 - alpha) * xbar, using=["sum.congr"])
+    ok = oblige_within(E, f"{prefix}.mean_bounds", mean2, lb, ub, assume=False,
+                       using=["pre.mean_in_bounds", f"{prefix}.elite_mean.lemma", "sum.congr"] + ([f"{prefix}.mean_value"] if okv else []))
     dev = elites - T.expand_dims(T.as_tensor(xbar), 0) if isinstance(xbar, T.Tensor) else elites - xbar
-    S2 = sum_bounds_lemma(E, f"{prefix}.elite_var", dev * dev, lo=0)
-    oblige_eq(E, f"{prefix}.var_value", var2, alpha * var + (1 - alpha) * (S2 / n_elite))
+    S2 = sum_bounds_lemma(E, f"{prefix}.elite_var", dev * dev, lo=0, using=[])
+    okv = oblige_eq(E, f"{prefix}.var_value", var2, alpha * var + (1 - alpha) * (S2 / n_elite), using=["sum.congr"])
     n = var2.ndim
     g = rng_of(var2.shape)
-    ok2 = oblige_forall(E, f"{prefix}.var_nonneg", [INT] * n, lambda *p: z3.Implies(g(*p), C.as_real(var2.at(*p)) >= 0), hint="p")
+    ok2 = oblige_forall(E, f"{prefix}.var_nonneg", [INT] * n, lambda *p: z3.Implies(g(*p), C.as_real(var2.at(*p)) >= 0), hint="p", assume=False,
+                        using=["pre.var_nonneg", f"{prefix}.elite_var.lemma", "sum.congr"] + ([f"{prefix}.var_value"] if okv else []))
     return ok and ok2
 
 
-def _cem_dims(E, rank):
+def _cem_dims(E, rank, one_elite=False):
     """dimension symbols in an order that keeps n_elite <= n_population when the engine
-    re-runs a failed obligation on small concrete sizes"""
-    n_elite = E.dim("n_elite", 1)
+    re-runs a failed obligation on small concrete sizes (n_elite >= 2 there, so that a
+    sum and a mean differ; the single-elite case is a separate task)"""
+    n_elite = 1 if one_elite else E.dim("n_elite", 2)
     if rank == 1:
         pshape = (E.dim("n_parameters", 1),)
     else:
@@ -419,9 +443,9 @@ def mk_h_cem_sample(rank):
     return h
 
 
-def mk_h_cem_update(rank):
+def mk_h_cem_update(rank, one_elite=False):
     def h(E):
-        n_elite, pshape, n_pop = _cem_dims(E, rank)
+        n_elite, pshape, n_pop = _cem_dims(E, rank, one_elite)
         E.assume(C.compare("<=", n_elite, n_pop))  # requires 1 <= n_elite <= n_population
         mean, var, lb, ub = _cem_dist(E, pshape)
         alpha = E.real("alpha", 0, 1)
@@ -433,6 +457,280 @@ def mk_h_cem_update(rank):
         idx = [0] * mean2.ndim
         E.oblige("canary.cem_update", C.compare("==", mean2.at(*idx), lb.at(*idx) - 1), assume_after=False)
     return h
+
+
+# =========================================================================
+# modular contracts of cem_sample / cem_update (proved by the tasks above) used as stubs
+# =========================================================================
+def nonneg_q(t):
+    g = rng_of(t.shape)
+    return [INT] * t.ndim, (lambda *p: z3.Implies(g(*p), C.as_real(t.at(*p)) >= 0))
+
+
+def within_q(x, lo, hi):
+    x, lo, hi = T.as_tensor(x), T.as_tensor(lo), T.as_tensor(hi)
+    n = x.ndim
+    g = rng_of(x.shape)
+    lof, hif = bcast_last(lo, n), bcast_last(hi, n)
+    return [INT] * n, (lambda *i: z3.Implies(g(*i), z3.And(C.as_real(lof(*i)) <= C.as_real(x.at(*i)), C.as_real(x.at(*i)) <= C.as_real(hif(*i)))))
+
+
+def same_shape(a, b):
+    a, b = T.as_tensor(a), T.as_tensor(b)
+    return a.ndim == b.ndim and all(T.dim_eq(x, y) for x, y in zip(a.shape, b.shape))
+
+
+def stub_cem_sample(E, mean, var, step_key, n_population, lb, ub):
+    """contract of cem_sample (tasks cem_sample*): requires lb <= mean <= ub, var >= 0,
+    equal shapes; ensures a fresh (n_population,) + shape array inside [lb, ub]"""
+    k = E.st.ghost["n_stub"] = E.st.ghost.get("n_stub", 0) + 1
+    pre = "call.cem_sample.requires"
+    if not (same_shape(mean, var) and same_shape(mean, lb) and same_shape(mean, ub)):
+        raise C.PyRaise("AssertionError", "chex.assert_equal_shape")
+    oblige_forall(E, f"{pre}.mean_in_bounds", *within_q(mean, lb, ub), assume=False)
+    oblige_forall(E, f"{pre}.var_nonneg", *nonneg_q(T.as_tensor(var)), assume=False)
+    samples = T.fresh_tensor("samples", (n_population,) + tuple(T.as_tensor(mean).shape), REAL, is_input=False)
+    E.st.assume_forall(*within_q(samples, lb, ub), f"ens.cem_sample{k}.bounds")
+    E.st.ghost["cem_bounds"] = (lb, ub)
+    return samples
+
+
+def stub_cem_update(E, samples, fitness, mean, var, n_elite, alpha):
+    """contract of cem_update (tasks cem_update*) for the bounds lb, ub of the planner:
+    requires samples and mean inside [lb, ub], var >= 0, 0 <= alpha <= 1, 1 <= n_elite <= n_population,
+    fitness of shape (n_population,); ensures lb <= mean' <= ub, var' >= 0, shapes kept"""
+    k = E.st.ghost["n_stub"] = E.st.ghost.get("n_stub", 0) + 1
+    lb, ub = E.st.ghost["cem_bounds"]
+    pre = "call.cem_update.requires"
+    samples, fitness, mean, var = [T.as_tensor(x) for x in (samples, fitness, mean, var)]
+    n_pop = samples.shape[0]
+    if fitness.ndim != 1 or not T.dim_eq(fitness.shape[0], n_pop) or not same_shape(mean, var) or samples.ndim != mean.ndim + 1:
+        E.st.fail(f"{pre}.shapes", f"samples {samples.shape} fitness {fitness.shape} mean {mean.shape} var {var.shape}")
+    else:
+        E.st.ok(f"{pre}.shapes")
+    oblige_forall(E, f"{pre}.samples_in_bounds", *within_q(samples, lb, ub), assume=False)
+    oblige_forall(E, f"{pre}.mean_in_bounds", *within_q(mean, lb, ub), assume=False)
+    oblige_forall(E, f"{pre}.var_nonneg", *nonneg_q(var), assume=False)
+    E.oblige(f"{pre}.alpha_in_unit_interval", band(C.compare(">=", alpha, 0), C.compare("<=", alpha, 1)), assume_after=False)
+    E.oblige(f"{pre}.n_elite_in_range", band(C.compare(">=", n_elite, 1), C.compare("<=", n_elite, n_pop)), assume_after=False)
+    mean2 = T.fresh_tensor("mean_next", mean.shape, REAL, is_input=False)
+    var2 = T.fresh_tensor("var_next", var.shape, REAL, is_input=False)
+    E.st.assume_forall(*within_q(mean2, lb, ub), f"ens.cem_update{k}.mean_bounds")
+    E.st.assume_forall(*nonneg_q(var2), f"ens.cem_update{k}.var_nonneg")
+    return mean2, var2
+
+
+def dist_qinv(mean, var, lb, ub):
+    """search-distribution invariant of the planner loops"""
+    return [("mean_in_bounds",) + tuple(within_q(mean, lb, ub)), ("var_nonneg",) + tuple(nonneg_q(T.as_tensor(var)))]
+
+
+def setup_optimize_cem(shared):
+    shared.stubs[CEM + "cem_sample"] = stub_cem_sample
+    shared.stubs[CEM + "cem_update"] = stub_cem_update
+    shared.loop_specs[(CEM + "optimize_cem", 0)] = LoopSpec(qinv=lambda L: dist_qinv(L["mean"], L["var"], L["lb"], L["ub"]))
+
+
+def mk_h_optimize_cem(rank):
+    def h(E):
+        n_elite, pshape, n_pop = _cem_dims(E, rank)
+        E.assume(C.compare("<=", n_elite, n_pop))
+        mean, var, lb, ub = _cem_dist(E, pshape)
+        alpha = E.real("alpha", 0, 1)
+        epsilon = E.real("epsilon")
+        n_iter = E.int("n_iter", 0)
+        key = E.val("key", KEY)
+        fit = C.Builtin("fitness_function", lambda E_, x: T.fresh_tensor("fitness", (n_pop,), REAL, is_input=False))
+        r = E.call(CEM + "optimize_cem", fit, mean, var, key, n_iter, n_pop, n_elite, lb, ub, epsilon, alpha)
+        if shape_is(E, "optimize_cem.shape", r, pshape):
+            oblige_within(E, "optimize_cem.result_in_bounds", r, lb, ub, assume=False)
+            idx = [0] * r.ndim
+            E.oblige("canary.optimize_cem", C.compare("==", r.at(*idx), lb.at(*idx) - 1), assume_after=False)
+    return h
+
+
+# =========================================================================
+# PETS: CEM planner over action sequences
+# =========================================================================
+PETS = ALG + "pets."
+
+
+def stacked(t, H):
+    """bounds of a plan: the action bound repeated over the horizon, shape (H, A)"""
+    return T.Tensor((H,) + tuple(t.shape), lambda h, *d: t.at(*d), REAL)
+
+
+def _pets_dims(E):
+    n_samples = E.dim("n_samples", 10)  # n_elite = int(0.1 * n_samples) >= 1 is a configuration precondition
+    H = E.dim("plan_horizon", 1)
+    A = E.dim("D_act", 1)
+    return n_samples, H, A
+
+
+def h_init_mpc_optimizer(E):
+    """_init_mpc_optimizer_cem ensures: the returned closures are cem_sample / cem_update
+    with lb / ub = the action bounds stacked over the horizon, n_population = n_samples,
+    n_elite = int(0.1 * n_samples), hence (contracts above) candidates and the updated
+    mean are inside the action bounds at every step of the plan"""
+    n_samples, H, A = _pets_dims(E)
+    box = mk_box(E, "action_space", A)
+    low, high = box.fields["low"], box.fields["high"]
+    sample_fn, update_fn = E.call(PETS + "_init_mpc_optimizer_cem", box, H, n_samples)
+    lbs, ubs = stacked(low, H), stacked(high, H)
+    mean = T.fresh_tensor("mean", (H, A), REAL)
+    var = T.fresh_tensor("var", (H, A), REAL)
+    assume_within(E, "pre.mean_in_bounds", mean, lbs, ubs)
+    E.st.assume_forall(*nonneg_q(var), "pre.var_nonneg")
+    key = E.val("key", KEY)
+    # -- sample_fn(mean, var, key): real cem_sample through the returned partial
+    actions = E.call(sample_fn, mean, var, key)
+    post_cem_sample(E, "mpc.sample_fn", actions, n_samples, mean, var, key, lbs, ubs)
+    if isinstance(actions, T.Tensor) and actions.ndim == 3:
+        oblige_within(E, "mpc.sample_fn.every_planned_action_in_action_space", actions, low, high, assume=False, using=["mpc.sample_fn.bounds"])
+    if isinstance(actions, T.Tensor) and actions.ndim == 3:
+        E.oblige("canary.mpc_init_sample", C.compare("==", actions.at(0, 0, 0), low.at(0) - 1), assume_after=False)
+    # -- update_fn(samples, fitness, mean, var): real cem_update through the returned partial
+    samples = T.fresh_tensor("samples", (n_samples, H, A), REAL)
+    assume_within(E, "pre.samples_in_bounds", samples, lbs, ubs)
+    fitness = T.fresh_tensor("fitness", (n_samples,), REAL)
+    mean2, var2 = E.call(update_fn, samples, fitness, mean, var)
+    n_elite = LIB.builtins["int"].fn(E, C.binop("*", C.frac_of(0.1), n_samples))
+    E.oblige("mpc.update_fn.n_elite_at_least_one", C.compare(">=", n_elite, 1))
+    post_cem_update(E, "mpc.update_fn", samples, fitness, mean, var, n_elite, C.frac_of(0.1), lbs, ubs, mean2, var2)
+    E.st.oblige("canary.mpc_init", C.as_bool(C.compare("==", mean2.at(0, 0), low.at(0) - 1)), assume_after=False, using=["pre.", "sort.", "action_space."])
+
+
+def mk_mpc_config(E, box, n_samples, H, A, sample_fn, update_fn, init_prev):
+    """PETSMPCConfig as train_pets builds it; requires (established by train_pets):
+    low <= avg_act <= high, init_var >= 0 of shape (H, A)"""
+    avg_act = T.fresh_tensor("avg_act", (A,), REAL)
+    assume_within(E, "pre.avg_act_in_bounds", avg_act, box.fields["low"], box.fields["high"])
+    init_var = T.fresh_tensor("init_var", (H, A), REAL)
+    E.st.assume_forall(*nonneg_q(init_var), "pre.init_var_nonneg")
+    reward_model = C.Builtin("reward_model", lambda E_, a, o: C.Anything("reward"))
+    return E.call(PETS + "PETSMPCConfig", plan_horizon=H, n_particles=E.dim("n_particles", 1), n_samples=n_samples,
+                  n_opt_iter=E.int("n_opt_iter", 0), init_with_previous_plan=init_prev, reward_model=reward_model,
+                  action_space_shape=(A,), avg_act=avg_act, init_var=init_var, sample_fn=sample_fn, update_fn=update_fn)
+
+
+def stub_ts_inf(E, keys, model_idx, acts, obs, dynamics_model):
+    """documented result shape of ts_inf (C17 proves its contents): (n_samples, n_particles, plan_horizon + 1) + obs.shape"""
+    keys, acts, obs = T.as_tensor(keys), T.as_tensor(acts), T.as_tensor(obs)
+    return T.fresh_tensor("trajectories", (acts.shape[0], keys.shape[1], C.binop("+", acts.shape[1], 1)) + tuple(obs.shape), REAL, is_input=False)
+
+
+def stub_evaluate_plans(E, actions, trajectories, reward_model):
+    """documented result shape of evaluate_plans (C17): expected returns, shape (n_samples,), arbitrary values"""
+    return T.fresh_tensor("expected_returns", (T.as_tensor(actions).shape[0],), REAL, is_input=False)
+
+
+def _first_or_later_iteration(E, fr):
+    """best_return is -inf before the first iteration and a finite number afterwards"""
+    if "best_return" in fr.vars and not E.branch(E.st.fresh_sym("first_iteration", C.BOOL)):
+        fr.vars["best_return"] = E.st.fresh_sym("best_return", REAL)
+
+
+def setup_pets_optimize(shared):
+    shared.stubs[CEM + "cem_sample"] = stub_cem_sample
+    shared.stubs[CEM + "cem_update"] = stub_cem_update
+    shared.stubs[PETS + "ts_inf"] = stub_ts_inf
+    shared.stubs[PETS + "evaluate_plans"] = stub_evaluate_plans
+    shared.loop_specs[(PETS + "_pets_optimize", 0)] = LoopSpec(
+        qinv=lambda L: dist_qinv(L["mean"], L["var"], *L.E.st.ghost["plan_bounds"]), havoc_extra=_first_or_later_iteration)
+
+
+def _pets_world(E, init_prev):
+    n_samples, H, A = _pets_dims(E)
+    D = E.dim("D_obs", 1)
+    box = mk_box(E, "action_space", A)
+    sample_fn, update_fn = E.call(PETS + "_init_mpc_optimizer_cem", box, H, n_samples)
+    config = mk_mpc_config(E, box, n_samples, H, A, sample_fn, update_fn, init_prev)
+    lbs, ubs = stacked(box.fields["low"], H), stacked(box.fields["high"], H)
+    E.st.ghost["plan_bounds"] = (lbs, ubs)
+    model = E.new_obj("pyvc.Opaque", name="dynamics_model", n_ensemble=E.int("n_ensemble", 1))
+    obs = T.fresh_tensor("obs", (D,), REAL)
+    return n_samples, H, A, D, box, config, lbs, ubs, model, obs
+
+
+def h_pets_opt_iter(E):
+    """one optimizer iteration keeps the search distribution inside the plan bounds"""
+    n_samples, H, A, D, box, config, lbs, ubs, model, obs = _pets_world(E, True)
+    mean = T.fresh_tensor("mean", (H, A), REAL)
+    var = T.fresh_tensor("var", (H, A), REAL)
+    assume_within(E, "pre.mean_in_bounds", mean, lbs, ubs)
+    E.st.assume_forall(*nonneg_q(var), "pre.var_nonneg")
+    key = E.val("key", KEY)
+    P = config.fields["n_particles"]
+    model_indices = T.fresh_tensor("model_indices", (P,), INT)
+    best_plan = T.fresh_tensor("best_plan", (H, A), REAL)
+    best_return = E.real("best_return")
+    out = E.call(PETS + "_pets_opt_iter", config, model, key, obs, model_indices, mean, var, best_plan, best_return)
+    mean2, var2 = out[0], out[1]
+    if shape_is(E, "opt_iter.mean_shape", mean2, (H, A)) and shape_is(E, "opt_iter.var_shape", var2, (H, A)):
+        oblige_within(E, "opt_iter.mean_in_plan_bounds", mean2, lbs, ubs, assume=False)
+        oblige_forall(E, "opt_iter.var_nonneg", *nonneg_q(var2), assume=False)
+        E.oblige("canary.opt_iter", C.compare("==", mean2.at(0, 0), box.fields["low"].at(0) - 1), assume_after=False)
+
+
+def h_pets_optimize(E):
+    """_pets_optimize requires a plan inside the bounds; ensures the optimised plan is inside the bounds"""
+    n_samples, H, A, D, box, config, lbs, ubs, model, obs = _pets_world(E, True)
+    mean = T.fresh_tensor("mean", (H, A), REAL)
+    assume_within(E, "pre.mean_in_bounds", mean, lbs, ubs)
+    key = E.val("key", KEY)
+    plan = E.call(PETS + "_pets_optimize", config, model, mean, key, obs)
+    if shape_is(E, "pets_optimize.shape", plan, (H, A)):
+        oblige_within(E, "pets_optimize.plan_in_bounds", plan, lbs, ubs, assume=False)
+        E.oblige("canary.pets_optimize", C.compare("==", plan.at(0, 0), box.fields["low"].at(0) - 1), assume_after=False)
+
+
+def stub_pets_optimize(E, config, dynamics_model, mean, key, obs):
+    """contract of _pets_optimize (task pets_optimize)"""
+    lbs, ubs = E.st.ghost["plan_bounds"]
+    oblige_forall(E, "call._pets_optimize.requires.plan_in_bounds", *within_q(mean, lbs, ubs), assume=False)
+    plan = T.fresh_tensor("optimized_plan", T.as_tensor(mean).shape, REAL, is_input=False)
+    E.st.assume_forall(*within_q(plan, lbs, ubs), "ens._pets_optimize.plan_in_bounds")
+    return plan
+
+
+def setup_mpc_action(shared):
+    shared.stubs[PETS + "_pets_optimize"] = stub_pets_optimize
+
+
+def post_mpc_action(E, prefix, box, H, action, prev_plan):
+    """mpc_action ensures: the returned action is inside the action space; the shifted
+    plan kept for the next call has the same shape and stays inside the bounds"""
+    A = box.fields["low"].shape[0]
+    ok = shape_is(E, f"{prefix}.action_shape", action, (A,))
+    if ok:
+        post_in_box(E, f"{prefix}.action_in_bounds", box, action)
+    pp = T.as_tensor(prev_plan)
+    if pp.ndim != 2 or not T.dim_eq(pp.shape[1], A):
+        E.st.fail(f"{prefix}.prev_plan_shape", f"{pp.shape}")
+        return
+    E.oblige(f"{prefix}.prev_plan_shape", C.compare("==", pp.shape[0], H))
+    post_in_box(E, f"{prefix}.prev_plan_in_bounds", box, pp)
+
+
+def h_mpc_action(E):
+    init_prev = E.bool("init_with_previous_plan")
+    n_samples, H, A, D, box, config, lbs, ubs, model, obs = _pets_world(E, init_prev)
+    prev = T.fresh_tensor("prev_plan", (H, A), REAL)
+    assume_within(E, "pre.prev_plan_in_bounds", prev, lbs, ubs)
+    state = E.call(PETS + "PETSMPCState", dynamics_model=model, prev_plan=prev, key=E.val("key", KEY))
+    optimize_fn = C.Partial(E.resolve(PETS + "_pets_optimize"), (config,), {})
+    action = E.call(PETS + "mpc_action", config, state, optimize_fn, obs)
+    post_mpc_action(E, "mpc_action", box, H, action, state.fields["prev_plan"])
+    E.oblige("canary.mpc_action", C.compare("==", T.as_tensor(action).at(0), box.fields["low"].at(0) - 1), assume_after=False)
+
+
+def h_initial_plan(E):
+    n_samples, H, A, D, box, config, lbs, ubs, model, obs = _pets_world(E, True)
+    plan = E.call(PETS + "PETSMPCState.initial_plan", config)
+    if shape_is(E, "initial_plan.shape", plan, (H, A)):
+        post_in_box(E, "initial_plan.in_bounds", box, plan)
+        oblige_eq(E, "initial_plan.value", plan, stacked(config.fields["avg_act"], H))
+        E.oblige("canary.initial_plan", C.compare("==", plan.at(0, 0), box.fields["low"].at(0) - 1), assume_after=False)
 
 
 TASKS = [
@@ -448,6 +746,15 @@ TASKS = [
     Task("cem_sample_plan", mk_h_cem_sample(2)),
     Task("cem_update", mk_h_cem_update(1)),
     Task("cem_update_plan", mk_h_cem_update(2)),
+    Task("cem_update_single_elite", mk_h_cem_update(1, one_elite=True)),
+    Task("cem_update_plan_single_elite", mk_h_cem_update(2, one_elite=True)),
+    Task("optimize_cem", mk_h_optimize_cem(1), setup=setup_optimize_cem),
+    Task("optimize_cem_plan", mk_h_optimize_cem(2), setup=setup_optimize_cem),
+    Task("pets_init_mpc_optimizer", h_init_mpc_optimizer),
+    Task("pets_opt_iter", h_pets_opt_iter, setup=setup_pets_optimize),
+    Task("pets_optimize", h_pets_optimize, setup=setup_pets_optimize),
+    Task("pets_mpc_action", h_mpc_action, setup=setup_mpc_action),
+    Task("pets_initial_plan", h_initial_plan),
 ]
 
 TRUSTED = []
